@@ -424,6 +424,86 @@ Definition eqb_rres (tol : Q) (a b : rres) : bool :=
   | _, _ => false
   end.
 
+
+(* ------------------------------------------------------------------ rebin for every rank *)
+
+(* an n-D array is a list nested n deep; element rules lifted n times act on (n)-D sub-arrays *)
+Fixpoint ndT (T : Type) (n : nat) : Type := match n with O => T | S k => list (ndT T k) end.
+Fixpoint ops_nd {T} (o : ops T) (n : nat) : ops (ndT T n) :=
+  match n with O => o | S k => ops_lift (ops_nd o k) end.
+Fixpoint dflt_nd (n : nat) : ndT Q n := match n with O => 0%Q | S _ => [] end.
+Fixpoint shape_nd (n : nat) : ndT Q n -> list Z :=
+  match n with O => fun _ => [] | S k => fun x => lenZ x :: shape_nd k (hd (dflt_nd k) x) end.
+
+Inductive rresN (n : nat) := RN (y : ndT Q n) | RNValueError | RNOther.
+Arguments RN {n}. Arguments RNValueError {n}. Arguments RNOther {n}.
+
+(* M: the plan of the axis loop of rebin.py, GENERATED (Generated/Rebin.v, `the axis loop`): the number of passes,
+   the list position every per-axis object is indexed with in pass k (d, d0, new_shape, the three slice lists, the
+   axis of the block sum), whether the scratch slice lists are re-created in every pass, whether a pass starts
+   from the previous pass's result and keeps its dtype.  The reference plan -- pass k acts on nesting level k of
+   the array and reads extent k of the requested shape, nothing is carried over between passes except the
+   array -- is what rebin_nd_axes below implements; a generated plan that differs gives ROther. *)
+Definition axis_plan_ok (rank : Z) : bool :=
+  (rebin_loop_count rank rank =? rank) && rebin_scratch_fresh && rebin_pass_feeds_next && rebin_pass_keeps_dtype
+  && forallb (fun t => let k := Z.of_nat t in
+                (rebin_pos_d k =? k) && (rebin_pos_d0 k =? k) && (rebin_pos_newshape k =? k)
+                && (rebin_pos_newextent k =? k) && (rebin_pos_src k =? k) && (rebin_pos_hi k =? k)
+                && (rebin_pos_dst k =? k) && (rebin_pos_sum k =? k))
+             (seq 0 (Z.to_nat rank)).
+
+Section RebinAnyRank.
+  Variable ax : forall T, ops T -> bool -> list T -> Z -> list T.   (* rebin_axis or rebin_axis_spec *)
+  Variable dims_ok : list Z -> list Z -> bool.                      (* dims_ok_gen or dims_ok *)
+  Variable ops_elem : dkind -> ops Q.                               (* ops_gen or ops_elem *)
+  Variable plan_ok : Z -> bool.                                     (* axis_plan_ok or constant true *)
+  Variable k : dkind.
+  Variable sample : bool.
+  (* pass 0 along the leading axis with the element rules lifted to the (n-1)-D sub-arrays, then the remaining
+     passes inside every sub-array: pass j acts on nesting level j *)
+  Fixpoint rebin_nd_axes (n : nat) : ndT Q n -> list Z -> ndT Q n :=
+    match n with
+    | O => fun x _ => x
+    | S m => fun x d => match d with
+                        | [] => x
+                        | a :: r => map (fun sub => rebin_nd_axes m sub r) (ax (ndT Q m) (ops_nd (ops_elem k) m) sample x a)
+                        end
+    end.
+  Definition rebin_nd_with (n : nat) (x : ndT Q n) (d : list Z) : rresN n :=
+    if dims_ok (shape_nd n x) d then
+      if plan_ok (Z.of_nat n) then RN (rebin_nd_axes n x d) else RNOther
+    else RNValueError.
+End RebinAnyRank.
+
+(* M / S for every rank (rebin1/2/3 above are the ranks 1, 2, 3: C14_rebin_nd_is_rebin123) *)
+Definition rebin_nd := rebin_nd_with (@rebin_axis) dims_ok_gen ops_gen axis_plan_ok.
+Definition rebin_nd_spec := rebin_nd_with (@rebin_axis_spec) dims_ok ops_elem (fun _ => true).
+
+Fixpoint eqnd_tol (tol : Q) (n : nat) : ndT Q n -> ndT Q n -> bool :=
+  match n with
+  | O => fun a b => Qeqb_tol tol a b
+  | S m => fun a b => Nat.eqb (length a) (length b) && forallb (fun p => eqnd_tol tol m (fst p) (snd p)) (combine a b)
+  end.
+Definition eqb_rresN (tol : Q) (n : nat) (a b : rresN n) : bool :=
+  match a, b with
+  | RN x, RN y => eqnd_tol tol n x y
+  | RNValueError, RNValueError => true
+  | RNOther, RNOther => true
+  | _, _ => false
+  end.
+
+(* ------------------------------------------------------------------ exact comparison with a double *)
+
+(* q is a double (up to exponent range): a dyadic rational with a significand below 2^53 *)
+Definition is_pow2 (p : positive) : bool := Z.pow 2 (Z.log2 (Zpos p)) =? Zpos p.
+Definition representable (q : Q) : bool :=
+  let r := Qred q in is_pow2 (Qden r) && (Z.abs (Qnum r) <? 9007199254740992).
+(* necessary for "r is the double nearest to q": r = q when q is itself a double, |r - q| <= |q| 2^-53 otherwise *)
+Definition rounds_to (q r : Q) : bool :=
+  if representable q then Qeq_bool q r else Qle_bool (Qabs (r - q)) (Qabs q * (1 # 9007199254740992)).
+Definition eq1_rounded (model impl : list Q) : bool :=
+  Nat.eqb (length model) (length impl) && forallb (fun p => rounds_to (fst p) (snd p)) (combine model impl).
+
 (* ================================================================== correspondence cases *)
 
 Inductive case :=
@@ -436,7 +516,10 @@ Inductive case :=
 | CUniqQ (xs : list Q) (idx : option (list Z)) (meta_ok : bool) (expect : list Z)
 | CRebin1 (k : dkind) (sample : bool) (x : list Q) (d : list Z) (tol : Q) (meta_ok : bool) (expect : rres)
 | CRebin2 (k : dkind) (sample : bool) (x : list (list Q)) (d : list Z) (tol : Q) (meta_ok : bool) (expect : rres)
-| CRebin3 (k : dkind) (sample : bool) (x : list (list (list Q))) (d : list Z) (tol : Q) (meta_ok : bool) (expect : rres).
+| CRebin3 (k : dkind) (sample : bool) (x : list (list (list Q))) (d : list Z) (tol : Q) (meta_ok : bool) (expect : rres)
+(* round 5 *)
+| CRebinN (n : nat) (k : dkind) (sample : bool) (x : ndT Q n) (d : list Z) (tol : Q) (meta_ok : bool) (expect : rresN n)
+| CSmoothX (xs : list Q) (owidth : Z) (et : bool) (meta_ok : bool) (expect : list Q).
 
 Definition verdict (model_ok spec_ok : bool) : Z := (if model_ok then 0 else 1) + (if spec_ok then 0 else 2).
 
@@ -482,7 +565,9 @@ Definition run_case (c : case) : Z :=
       verdict (eqb_fres1 (median_filter1 xs width) expect)
               (negb dom || eqb_fres1 (F1Ok (median_filter1_spec xs width)) expect)
   | CMedFilt2 x width expect =>
-      let dom := Z.odd width && (1 <=? width) && (width <=? Z.min (lenZ x) (Z.of_nat (ncols x))) in
+      (* round 5: every odd width up to the number of elements (a one-row / one-column image has no interior
+         point for width >= 3: everything is edge and stays untouched) -- C14_median_filter2_refines_spec_size *)
+      let dom := Z.odd width && (1 <=? width) && (width <=? lenZ x * Z.of_nat (ncols x)) in
       verdict (eqb_fres2 (median_filter2 x width) expect)
               (negb dom || eqb_fres2 (F2Ok (median_filter2_spec x width)) expect)
   | CUniqZ xs None meta expect =>
@@ -505,6 +590,15 @@ Definition run_case (c : case) : Z :=
       verdict (eqb_rres tol (rebin2 k sample x d) expect) (meta && eqb_rres tol (rebin2_spec k sample x d) expect)
   | CRebin3 k sample x d tol meta expect =>
       verdict (eqb_rres tol (rebin3 k sample x d) expect) (meta && eqb_rres tol (rebin3_spec k sample x d) expect)
+  | CRebinN n k sample x d tol meta expect =>
+      verdict (eqb_rresN tol n (rebin_nd k sample n x d) expect) (meta && eqb_rresN tol n (rebin_nd_spec k sample n x d) expect)
+  | CSmoothX xs ow et meta expect =>
+      (* arrays whose window sums are exact in double arithmetic (short dyadic values; decided by the harness):
+         the only rounding is the division by float(width), so every output sample must be the double nearest
+         to the exact mean -- in particular EQUAL to it when the exact mean is itself a double *)
+      let dom := (1 <=? lenZ xs) && (negb et || (odd_width ow - 1 <=? lenZ xs)) in
+      verdict (eq1_rounded (smooth xs ow et) expect)
+              (negb dom || (meta && eq1_rounded (smooth_spec xs ow et) expect))
   end.
 
 Definition run_cases (cs : list case) : list Z := map run_case cs.
